@@ -396,10 +396,20 @@ func callUser(w *run.W, fn func()) (user, aborted bool) {
 	return
 }
 
+// functions for the other direction (on a type no case uses), carried along in joined option sets
+var (
+	otherDirectionM = json.MarshalFunc(func(v complex64) ([]byte, error) { return []byte(`"c64"`), nil })
+	otherDirectionU = json.UnmarshalFunc(func(b []byte, v *complex64) error { return nil })
+)
+
 func callMarshal(api string, in any, os *optSet, ms *json.Marshalers) (out []byte, err error) {
 	extra := []json.Options{}
 	if ms != nil {
 		extra = append(extra, json.WithMarshalers(ms))
+		if api == "MarshalWrite" || api == "MarshalEncodeIn" {
+			// one joined set that carries functions for both directions (as a caller sharing one options value would pass)
+			extra = []json.Options{json.JoinOptions(json.WithUnmarshalers(otherDirectionU), json.WithMarshalers(ms))}
+		}
 	}
 	switch api {
 	case "Marshal":
@@ -456,6 +466,9 @@ func callUnmarshal(api string, doc string, target any, os *optSet, us *json.Unma
 	extra := []json.Options{}
 	if us != nil {
 		extra = append(extra, json.WithUnmarshalers(us))
+		if api == "UnmarshalRead" || api == "UnmarshalDecodeIn" {
+			extra = []json.Options{json.JoinOptions(json.WithMarshalers(otherDirectionM), json.WithUnmarshalers(us))}
+		}
 	}
 	switch api {
 	case "Unmarshal":
